@@ -435,7 +435,13 @@ def run(ctx):
         return out
 
     def protected(cfg_, node_ids):
-        return any(h is None or any(nm.endswith("TokenError") or nm in ("Exception", "BaseException") for nm in h) for h in handler_names(cfg_, node_ids))
+        # the tokenizer rejects source in two ways: tokenize.TokenError (unfinished statement / string) and SyntaxError
+        # (IndentationError, TabError for an inconsistent dedent or mixed tabs): a handler counts only when it takes both
+        def both(h):
+            if h is None or any(nm in ("Exception", "BaseException") for nm in h):
+                return True
+            return any(nm.endswith("TokenError") for nm in h) and any(nm in ("SyntaxError",) for nm in h)
+        return any(both(h) for h in handler_names(cfg_, node_ids))
 
     unsafe_memo = {}
 
@@ -624,6 +630,23 @@ def run(ctx):
                 else:
                     r.ok("%s: %s" % (m_.short, norm(c)[:50]))
     if n16 == 0:
+        r.vacuous_ok = True
+
+    # ---------------------------------------------------------------- R17
+    r = ctx.rule("C20-R17", "TABLE", "'frames under the ignored path are hidden': the ignore pattern is a path prefix - it is applied to a frame's file name with match() (anchored at the "
+                 "start only), not with fullmatch() or search()", reference=1)
+    n17 = 0
+    for m_ in sorted(et.methods.values(), key=lambda f: f.name):
+        for c in q.calls(m_):
+            if isinstance(c.func, ast.Attribute) and c.func.attr in ("match", "fullmatch", "search", "findall") and \
+                    any(isinstance(x, ast.Attribute) and x.attr == "_ignore" for x in ast.walk(c)):
+                n17 += 1
+                if c.func.attr == "match":
+                    r.ok("%s: %s" % (m_.short, norm(c)[:60]))
+                else:
+                    r.fail(m_, c, "ignore pattern applied with %s" % c.func.attr, "%s applies the ignore pattern with %s(): a directory-prefix pattern ('^/path/vendor/') %s - frames the caller asked "
+                           "to hide are shown at -v / -vv (or unrelated ones hidden)" % (m_.short, c.func.attr, "no longer matches any file below it" if c.func.attr == "fullmatch" else "matches anywhere in the name"))
+    if n17 == 0:
         r.vacuous_ok = True
 
     return ctx.results
